@@ -2,7 +2,7 @@
    Statements only; proofs in C04/Proofs*.v (built on the C02 solver model). *)
 From Coq Require Import List Arith QArith Qminmax Lqa Lia Bool.
 From AIT Require Import Base.Qx Base.Mdp Base.MdpExec C02.Model C02.Spec C02.ProofsVec C02.ProofsCross
-  C02.ProofsSched C02.ProofsProj C02.ProofsIP C02.ProofsPrunePw C04.Model C04.Spec C04.ProofsPlan C04.ProofsExec C04.ProofsRun C04.ProofsBound C04.ProofsPoint C04.ProofsPointExact C02.ProofsSchedAll.
+  C02.ProofsSched C02.ProofsProj C02.ProofsIP C02.ProofsPrunePw C04.Model C04.Spec C04.ProofsPlan C04.ProofsExec C04.ProofsRun C04.ProofsBound C04.ProofsPoint C04.ProofsPointExact C04.ProofsStep C02.ProofsSchedAll.
 Import ListNotations.
 Local Open Scope Q_scope.
 
@@ -165,6 +165,31 @@ Theorem best_action_backup_exact : forall m, wf_pomdp1 m -> obs_clean m ->
 Proof. exact best_action_backup_exact_lemma. Qed.
 Print Assumptions best_action_backup_exact.
 
+(* One solver step, without the chain down to horizon 0.  (1) Plans over a surface that is nowhere
+   above EV n are nowhere above EV (n+1), whatever produced or selected them. *)
+Theorem plan_step_le_EV : forall m, wf_pomdp1 m ->
+  forall n w, wfl (nS (pm m)) w ->
+  (forall tau, nonneg tau -> length tau = nS (pm m) -> vbest w tau <= EV m n tau) ->
+  forall e tau, entry_is_plan m w e -> nonneg tau -> length tau = nS (pm m) ->
+  dot (vals e) tau <= EV m (S n) tau.
+Proof. exact plan_step_le_EV_lemma. Qed.
+Print Assumptions plan_step_le_EV.
+
+(* (2) LinearSupport / PBVI / PERSEUS step over an EXACT previous surface: any list L of plans over w
+   that contains the best-action backup of every belief of B (the vertices / the belief set; L may
+   contain anything else that is a plan, and may have been pruned by anything that keeps those
+   entries) is below EV (n+1) everywhere and EQUAL to it at every belief of B. *)
+Theorem backup_step_sandwich : forall m, wf_pomdp1 m -> obs_clean m ->
+  forall n w, w <> [] -> wfl (nS (pm m)) w ->
+  (forall tau, nonneg tau -> length tau = nS (pm m) -> vbest w tau == EV m n tau) ->
+  forall (B : list vec) (L : vlist), L <> [] ->
+  (forall e, In e L -> entry_is_plan m w e) ->
+  (forall b, In b B -> nonneg b /\ length b = nS (pm m) /\ In (fst (csbb_all m w b)) L) ->
+  (forall tau, nonneg tau -> length tau = nS (pm m) -> vbest L tau <= EV m (S n) tau) /\
+  (forall b, In b B -> vbest L b == EV m (S n) b).
+Proof. exact backup_step_sandwich_lemma. Qed.
+Print Assumptions backup_step_sandwich.
+
 (* A value function made of plans is a sound LOWER bound on the optimal value (for every solver's
    output, whatever produced it): no conditional plan can promise more than expectimax, provided the
    horizon-0 entries promise nothing. *)
@@ -225,6 +250,31 @@ Proof.
   - repeat constructor; lra.
   - intros tau _ Hl. destruct tau as [|x [|y [|z t]]]; try discriminate.
     cbn [EV]. unfold vbest, best, valsof, vzero. cbn [map repeat maxl qmax_from dot]. vm_compute. destruct x, y; cbn; ring_simplify; reflexivity.
+  - vm_compute; reflexivity.
+  - vm_compute; reflexivity.
+Qed.
+
+(* Non-vacuity of backup_step_sandwich: with w0 as above, B = the two corners and the centre,
+   L = their best-action backups: every hypothesis on B and L holds (the other hypotheses are those of
+   ex_best_action_backup_exact) and L has two different entries. *)
+Example ex_backup_step_sandwich :
+  let w0 := [ {| vals := vzero 2; act := 0%nat; obs := [] |} ] in
+  let B := [ [1; 0]; [0; 1]; [1#2; 1#2] ] in
+  let L := map (fun b => fst (csbb_all ex_pomdp4 w0 b)) B in
+  obs_clean ex_pomdp4 /\ L <> [] /\ (forall e, In e L -> entry_is_plan ex_pomdp4 w0 e) /\
+  (forall b, In b B -> nonneg b /\ length b = 2%nat /\ In (fst (csbb_all ex_pomdp4 w0 b)) L) /\
+  vbest L [1; 0] == 1 /\ vbest L [0; 1] == 2.
+Proof.
+  cbv zeta.
+  assert (Hc : obs_clean ex_pomdp4).
+  { intros [|[|a]] [|[|o]] Ha Ho Hp s1 Hs1; try (cbn in Ha, Ho; lia); vm_compute in Hp; try discriminate. }
+  split; [exact Hc|]. split; [discriminate|]. split; [| split; [| split]].
+  - intros e He. apply in_map_iff in He. destruct He as [b [<- _]].
+    apply best_action_backup_is_plan; [cbn; lia| exact Hc| discriminate| cbn; lia].
+  - intros b Hb. split; [| split].
+    + destruct Hb as [<-|[<-|[<-|[]]]]; repeat constructor; lra.
+    + destruct Hb as [<-|[<-|[<-|[]]]]; reflexivity.
+    + apply in_map_iff. exists b. split; [reflexivity| exact Hb].
   - vm_compute; reflexivity.
   - vm_compute; reflexivity.
 Qed.
